@@ -9,7 +9,9 @@ import (
 
 // hostileAlphabet: lines that look like diff syntax.
 var hostileAlphabet = []string{"", "a", "b", "-x", "+y", " z", "-- q", "++ q", "- x", "-", "+", " ", "@ -1 +1 @@", "iff --git a/x b/x", "<", "> b", "< a", "---", "--- q", "+++ q",
-	"@@ -1 +1 @@", "diff x", "***", "*** 1,2 ****", "***************", "1a2", "2,3c4", "\\", "\\ No newline at end of file", "! w", "- v", "+ u", "  t"}
+	"@@ -1 +1 @@", "diff x", "***", "*** 1,2 ****", "***************", "1a2", "2,3c4", "\\", "\\ No newline at end of file", "! w", "- v", "+ u", "  t",
+	// no newline inside, but bytes that line-trimming or text-mode handling would eat
+	"b\r", "\r", "a\r\r", "\tq", "q\t", "q ", "\x00", "\xff\xfe", "\u2028", "\v", "q\f", "\u0085", "\u00a0", "a\rb"}
 
 var genFI = rapid.Custom(func(t *rapid.T) *FI {
 	if rapid.IntRange(0, 3).Draw(t, "nofi") == 0 {
